@@ -244,7 +244,9 @@ impl Transport for HypPciTransport {
     }
 
     fn read_config_generation(&self) -> u32 {
-        configread!(self.common_cfg, config_generation)
+        // The generation register is 8 bits wide.
+        let generation: u8 = configread!(self.common_cfg, config_generation);
+        generation.into()
     }
 
     fn read_config_space<T: FromBytes>(&self, offset: usize) -> Result<T, Error> {
